@@ -151,8 +151,10 @@ theorem C18_order (d : Dropins) (entries : List Entry) (fs : List Found)
 
 /-! ### failing plugins -/
 
-/-- a plugin that comes up and stays -/
-def good (f : Found) : Bool := f.exec = .runs .ok || f.exec = .runs .diesLater
+/-- a plugin that comes up (registers, accepts its configuration, synchronises) -/
+def good (f : Found) : Bool :=
+  f.exec = .runs .ok || f.exec = .runs .diesLater ||
+  f.exec = .runs .closesWhenIdle || f.exec = .runs .exitsWhenIdle
 
 /-- **Skip.** Whatever the other plugins do: (1) the active plugins are exactly the
     discovered ones that come up, in launch order — a plugin that cannot be executed, exits
@@ -211,6 +213,33 @@ theorem C18_skip (fs : List Found) (reqs : Nat) :
     unfold stoppedEventually
     unfold startOne at hp ⊢
     split <;> simp_all
+
+/-- **Stop kills all.** Take the plugins active after start-up and let ANY sequence of relayed
+    requests and idle periods follow, during which plugins may die after a request, close their
+    end of the connection while staying alive, or exit while the runtime is idle. Then after
+    `Stop` `p.stop()` (kill + wait) has been called on every one of them — whatever its
+    connection state at that moment and whether or not a request was relayed since it closed
+    (`removeClosedPlugins` only runs with a request; `stopPlugins` does not look at the flag). -/
+theorem C18_stop_kills_all (active : List Found) (plan : List Step) :
+    (∀ f ∈ active, f ∈ (stopAll (runPlan (initRun active) plan)).stopped) ∧
+    (stopAll (runPlan (initRun active) plan)).plugins = [] :=
+  ⟨covered_stopAll (covered_runPlan plan (covered_init active)), rfl⟩
+
+/-- … and for any list the runtime may hold at `Stop`, flagged closed or not -/
+theorem C18_stop_ignores_closed_flag (st : RunState) :
+    ∀ p ∈ st.plugins, p.1 ∈ (stopAll st).stopped := by
+  intro p hp
+  simp only [stopAll]
+  exact List.mem_append_right _ (List.mem_map_of_mem hp)
+
+/-- the seeded breakage (seeded/C18-s1: `stopPlugins` skips plugins flagged closed): a plugin
+    that closes while the runtime is idle is never stopped when `Stop` follows directly -/
+theorem skipping_closed_leaks :
+    let f : Found := ⟨"10".toList, "closer".toList, [], .runs .closesWhenIdle⟩
+    f ∉ (stopAllSkippingClosed (runPlan (initRun [f]) [.idle])).stopped ∧
+    f ∈ (stopAll (runPlan (initRun [f]) [.idle])).stopped ∧
+    f ∈ (stopAllSkippingClosed (runPlan (initRun [f]) [.idle, .request])).stopped := by
+  decide
 
 /-! ### the unrepaired code (witnesses; DESIGN §6 #14 and the unreaped child) -/
 
